@@ -583,6 +583,8 @@ func (c *Ctx) c04Oracle() error {
 			fmt.Fprintf(&sk, "type S struct { F %s }\nfunc fk() %s { s := &S{F: %d}; return s.F }\nfunc ek() %s { s := []%s{%d}; return s[0] }\n", T, T, K, T, T, K)
 			// a constant EXPRESSION as initialiser of a typed declaration (several instructions, one value)
 			fmt.Fprintf(&sk, "func dce() %s { var x %s = %d + 0; return x }\nvar gce %s = 1 * %d\nfunc gdce() %s { return gce }\nfunc dce2() %s { var a, b %s = %d - 0, 3; _ = b; return a }\nfunc dce3() %s { var a, b %s = 3, 0 + %d; _ = a; return b }\n", T, T, K, T, K, T, T, T, K, T, T, K)
+			// constants passed as the extra arguments of a variadic function or method take the element type
+			fmt.Fprintf(&sk, "func va(xs ...%s) %s { s := xs[0]; s += xs[1]; return s }\nfunc vcall() %s { return va(%d, 0) }\ntype VT struct { A int }\nfunc (t *VT) M(k int, xs ...%s) %s { s := xs[len(xs)-1]; s += 0; return s }\nfunc vmcall() %s { t := &VT{}; return t.M(1, 0, %d) }\n", T, T, T, K, T, T, T, K)
 			// named constants declared without a type are untyped constants too
 			fmt.Fprintf(&sk, "const NK = %d\nconst NK2 = NK + 0\nfunc nkdecl() %s { var x %s = NK; return x }\nfunc nkop(a %s) %s { return a + NK2 }\nfunc nkpar() %s { return par(NK) }\nfunc nkret() %s { return NK }\n", K, T, T, T, T, T, T)
 			fmt.Fprintf(&sk, "func nkfld() %s { s := &S{F: NK}; return s.F }\nfunc nkel() %s { s := []%s{NK2}; return s[0] }\nfunc nkasg() %s { var x %s; x = NK; return x }\nfunc nklocal() %s { const lk = NK; var x %s = lk; return x }\n", T, T, T, T, T, T, T)
@@ -593,6 +595,9 @@ func (c *Ctx) c04Oracle() error {
 				fmt.Fprintf(&sk, "func resb%d(p %s, q %s) (%s, %s) { return %d, %d }\nfunc rbcall%d() %s { var z %s; a, b := resb%d(z, z); _ = a; return b }\n", pi, P, P, T, T, K, K, pi, T, P, pi)
 			}
 			s := newScript(sk.String())
+			for _, fn := range []string{"vcall", "vmcall"} {
+				check("variadic-store", fmt.Sprintf("%s: %d among the extra arguments of a ...%s parameter", fn, K, T), s.call(fn), fmt.Sprintf("%d:%s", K, T))
+			}
 			for _, fn := range []string{"dce", "gdce", "dce2", "dce3"} {
 				check("typed-decl", fmt.Sprintf("%s: var x %s = <constant expression of value %d>", fn, T, K), s.call(fn), fmt.Sprintf("%d:%s", K, T))
 			}
@@ -734,7 +739,7 @@ func fkel() float64 { s := []float64{FK, FK2}; return s[1] / 2 }
 }
 
 func runC04(c *Ctx) error {
-	c.Rep.Rule = "num cut: (op, tagged operand pair) lines, 8-bit types exhaustive (256x256 per op), every ordered pair of kinds {untyped,uint8,int8,uint32,int32} on boundary+random values, float64 on special+random bit patterns, assign/convert/incdec/negate forms; oracle: script functions per type x syntactic position (var op var, x := a op b, a op= b, var op K, K op var, a op= K, ++/--, unary, typed var/const declaration, named constants without a type in every store position and as operands, parameter/field/element/result stores with parameters of every other type, conversions) against native Go arithmetic; distinct = distinct protocol line / (position,type,operands)"
+	c.Rep.Rule = "num cut: (op, tagged operand pair) lines, 8-bit types exhaustive (256x256 per op), every ordered pair of kinds {untyped,uint8,int8,uint32,int32} on boundary+random values, float64 on special+random bit patterns, assign/convert/incdec/negate forms; oracle: script functions per type x syntactic position (var op var, x := a op b, a op= b, var op K, K op var, a op= K, ++/--, unary, typed var/const declaration, named constants without a type in every store position and as operands, parameter/variadic/field/element/result stores with parameters of every other type, conversions) against native Go arithmetic; distinct = distinct protocol line / (position,type,operands)"
 	if err := c.c04Corr(); err != nil {
 		return err
 	}
